@@ -62,7 +62,7 @@ def kani_obligations(h, prop):
     """Distinct tagged assertion messages of a harness (from its source) that carry `prop`, plus its safety obligation."""
     src = open(os.path.join(common.KANI_DIR, h.file)).read()
     # body of this harness: from its @harness line to the next @harness line
-    m = re.search(r"@harness\s+name=%s\b" % re.escape(h.name), src)
+    m = re.search(r"@harness\s+name=%s\b" % re.escape(getattr(h, "fn_name", h.name)), src)
     body = src[m.end():] if m else ""
     n = re.search(r"//\s*@harness\s", body)
     if n:
